@@ -25,17 +25,33 @@ def free_consts(*terms):
 
 
 class LemmaCtx:
-    def __init__(self, name):
+    def __init__(self, name, prop=None):
         self.name = name
+        self.prop = prop
         self.vcs = []  # (sub-name, hyps, goal)
         self.closed = []  # universally closed statements, usable as hints once proven
 
-    def direct(self, hyps, goal, patterns=None, close=True):
-        self.vcs.append(("direct", list(hyps), goal))
+    def direct(self, hyps, goal, patterns=None, close=True, using=(), name=None):
+        """Prove  hyps => goal  (free constants are universally quantified).  `using` are
+        instances of already proven closed lemmas (see `instance`), added as hypotheses of
+        the VC only.  The closed statement  forall vars. hyps => goal  becomes a hint."""
+        self.vcs.append((name or f"direct{len(self.vcs)}", list(hyps) + list(using), goal))
+        body = z3.Implies(z3.And(*hyps), goal) if hyps else goal
+        vs = free_consts(body)
+        closed = z3.ForAll(vs, body, patterns=patterns or []) if vs else body
         if close:
-            body = z3.Implies(z3.And(*hyps), goal) if hyps else goal
-            vs = free_consts(body)
-            self.closed.append(z3.ForAll(vs, body, patterns=patterns or []) if vs else body)
+            self.closed.append(closed)
+        if self.prop is not None and name:
+            self.prop.closed_named[f"{self.name}.{name}"] = closed
+        return closed
+
+    @staticmethod
+    def instance(closed, *terms):
+        """The instance of a proven closed lemma at the given terms (in the order of its
+        bound variables, which is alphabetical by name)."""
+        assert z3.is_quantifier(closed) and closed.num_vars() == len(terms)
+        # de Bruijn: variable 0 is the LAST bound variable
+        return z3.substitute_vars(closed.body(), *reversed(terms))
 
     def induction(self, n, base, stmt, given=(), patterns=None):
         """forall n >= base. given => stmt(n), by induction on n (given must not mention n)."""
